@@ -249,6 +249,7 @@ impl Codec {
     pub fn encode_str(
         &self,
         string_const: BufferRef<Scalar<&'static str>>,
+        mode: u8,
         planner: &mut QueryPlanner,
     ) -> BufferRef<Scalar<i64>> {
         match self.ops[..] {
@@ -261,7 +262,7 @@ impl Codec {
                     .column_section(&self.column_name, 2, None, EncodingType::U8)
                     .u8()
                     .unwrap();
-                planner.inverse_dict_lookup(offset_len, backing_store, string_const)
+                planner.inverse_dict_lookup(offset_len, backing_store, string_const, mode)
             }
             _ => panic!("encode_str not supported for {:?}", &self.ops),
         }
